@@ -69,6 +69,12 @@ func (ctx *Ctx) GenVC(fc *FuncContract) (res *FuncResult) {
 		fr.vals[p] = t
 		vc.paramTerms = append(vc.paramTerms, t)
 		entry.assume(vc.rangeAssumption(t, p.Type(), entry.alloc))
+		switch U(p.Type()).(type) {
+		case *types.Pointer:
+			vc.notePreRid(t) // rangeAssumption: rid(t) < entry.alloc
+		case *types.Slice:
+			vc.notePreRid(SBase(t))
+		}
 		if _, isSl := U(p.Type()).(*types.Slice); isSl {
 			sl := U(p.Type()).(*types.Slice)
 			entry.assume(Implies(Neq(Rid(SBase(t)), IntLit(0)), Eq(App(SInt, "otype", Rid(SBase(t))), IntLit(-int64(vc.tt.TID(sl.Elem()))))))
